@@ -347,7 +347,7 @@ pub fn run_c11(tier: Tier) -> i32 {
     if let Err(f) = c11_end_to_end(&mut report, env_seed()) {
         return finish_fail(report, f, "C11-e2e", json!({}));
     }
-    let cases = tier.pick(120_000, 2_400_000);
+    let cases = tier.pick(1_500_000, 20_000_000);
     let out = run_generated(
         "C11-pairs",
         env_seed(),
@@ -674,7 +674,7 @@ pub fn run_c12(tier: Tier) -> i32 {
     if let Err(f) = c12_exhaustive(&mut report, 12, tier.pick(5, 6)) {
         return finish_fail(report, f, "C12-exhaustive", json!({}));
     }
-    let cases = tier.pick(40_000, 1_000_000);
+    let cases = tier.pick(500_000, 8_000_000);
     let out = run_generated(
         "C12-random",
         env_seed(),
